@@ -119,7 +119,7 @@ PROPS_LATE = {
                 theorems=[theorems.verify_C05], replay="bind", hints=[]),
     "C01": dict(units=CHECKER_CONE, replay="call", hints=["falsy_error", "groups"]),
     "C02": dict(units=CHECKER_CONE, replay="call", hints=["falsy_error post", "body"]),
-    "C08": dict(units=CHECKER_CONE, replay="call", hints=["posts", "fault"]),
+    "C08": dict(units=CHECKER_CONE + ["Old.__getattr__"], replay="call", hints=["posts", "fault"]),
     "C11": dict(units=CHECKER_CONE + INV_CONE, replay="call", hints=["reentrant", "fault"]),
     "C13": dict(units=CHECKER_CONE + INV_CONE, replay="call", hints=["async"]),
     "C16": dict(units=CHECKER_CONE + INV_CONE + ["add_precondition_to_checker", "add_postcondition_to_checker", "add_snapshot_to_checker", "require.__call__",
